@@ -23,10 +23,12 @@ import (
 )
 
 var (
-	users = []string{"u", "user name", "ü", strings.Repeat("Ab3_", 16)}
+	// incl. a backslash inside and at the end (Windows-style DOMAIN\user): the header writer does not
+	// escape, so the parser must not unescape
+	users = []string{"u", "user name", "ü", strings.Repeat("Ab3_", 16), `DOM\user`, `trail\`}
 	// passwords: printable text including ':' (statement), empty, quotes, unicode, surrounding blanks, 64 chars
 	passes = []string{"", "p", "pa:ss", ":", "a:b:c", " sp ", "üñí", "\"q\"", strings.Repeat("Zx9-", 16)}
-	realms = []string{"ipcam", "r r", ""}
+	realms = []string{"ipcam", "r r", "", `CORP\cams`}
 
 	reqMethods = []base.Method{
 		base.Announce, base.Describe, base.GetParameter, base.Options, base.Pause,
